@@ -136,6 +136,7 @@ pub fn run_plan<V: Variant>(plan: &WorldPlan, keys: Keys<V>, with_children: bool
     }
     st.steps += sched.steps;
     st.add("sched.switches", sched.switches);
+    st.add("sched.lock_handoffs", sched.lock_handoffs);
     if sched.switches > 0 {
         st.interleavings.insert(sched.trace_hash);
     }
